@@ -22,8 +22,8 @@ var badUTF8 = [][]byte{
 }
 
 var uniBits = []string{
-	"é", "ß", "ǆ", "İ", "ı", "ﬃ", "\U0001d4b3", " ", " ", "﻿", "​", "‮", "日本", "\U0010ffff", "\x00",
-	"Ω", "ǰ", " ", "　", "\u0085", "ẞ", "Ａ", "K",
+	"\u00e9", "\u00df", "\u01c6", "\u0130", "\u0131", "\ufb03", "\U0001d4b3", "\u2028", "\u2029", "\ufeff", "\u200b", "\u202e", "\u65e5\u672c", "\U0010ffff", "\x00",
+	"\u03a9", "\u01f0", "\u00a0", "\u3000", "\u0085", "\u1e9e", "\uff21", "\u212a", "\u0663",
 }
 
 var repeatTokens = []string{"*", "*/", ",", "-", "/", "0", "9", " ", "\t", "\n", "\r\n", "A", "=", "{", "[", "\"", "\\", "P", "T", "1H", "@", "a,", "{\"a\":", "[[", "-----", "%", "\x00", "\xff", "é"}
